@@ -383,7 +383,7 @@ func oracle(args []string) {
 		res.Printf("%s\n", b)
 	}
 	sum := summary{Kind: "summary", Dist: map[string]int{}, Exhaustive: true,
-		Rule: "each sampled file (fixtures + constructor-built PPD files, LF and CRLF) x every byte offset 0..len x sink kinds {hard, short, shortnil, full} x {persistent, transient} through ach.NewWriterWithOpts(sink).Write+Flush, and every offset 0..len x source kinds {error, unexpected-eof} (+ chunked and data-with-error reads at sampled offsets) through ach.NewReader(src).Read; non-trivial = the fault was actually hit (sink/source tripped); distinct by (file, line ending, kind, persistence, chunking, offset)"}
+		Rule: "each sampled file (fixtures, constructor-built PPD files sized so that the 4096-byte buffer boundary falls into the records / the padding, files of internal/gen; LF and CRLF) x every byte offset 0..len x sink kinds {hard, short, shortnil, full} x {persistent, transient} through ach.NewWriterWithOpts(sink).Write+Flush, and every offset 0..len x source kinds {error, unexpected-eof} x {default, permissive ValidateOpts} (+ chunked and data-with-error reads at sampled offsets) through ach.NewReader(src).Read; ReadFile on an unopenable and an unreadable path; non-trivial = the fault was actually hit (sink/source tripped); distinct by (file, line ending, kind, persistence, chunking, offset)"}
 
 	for _, c := range corpusCases(*corpus) {
 		sum.Evaluations++
